@@ -208,7 +208,7 @@ def run_cli_cell(g):
     return engine.ok(True, ["cli_ok"], None, key="cli:%r" % sorted(g.items(), key=str))
 
 
-VALS = [(0.0, 0.0, 0.0), (3.25, 0.5, 7.0), (100.0, 41.5, 0.25)]
+VALS = [(0.0, 0.0, 0.0), (3.25, 0.5, 7.75), (100.5, 41.5, 0.25)]   # every overridden value once fractional, once zero
 
 
 def extra(tier, seed, stats):
@@ -226,17 +226,15 @@ def extra(tier, seed, stats):
         for c, s in zip(cells, pr.steps):
             r = judge_init(c, s)
             _account(stats, {"grid": c}, r, out)
-    for bt, t, sub in itertools.product((0, 1), range(6), range(8)):
-        v = VALS[1]
+    for bt, t, sub, v in itertools.product((0, 1), range(6), range(8), VALS[1:]):
         c = {"leg": "lib", "biotype": bt, "type": t, "gpo": v[0] if sub & 1 else -1.0, "gpe": v[1] if sub & 2 else -1.0,
              "tgpe": v[2] if sub & 4 else -1.0}
         _account(stats, {"grid": c}, run_lib_cell(c), out)
-    for bt, w, sub in itertools.product((0, 1), WORDS, range(8)):
-        v = VALS[1]
+    for bt, w, sub, v in itertools.product((0, 1), WORDS, range(8), VALS[1:]):
         c = {"leg": "cli", "biotype": bt, "word": w, "gpo": v[0] if sub & 1 else -1.0, "gpe": v[1] if sub & 2 else -1.0,
              "tgpe": v[2] if sub & 4 else -1.0}
         _account(stats, {"grid": c}, run_cli_cell(c), out)
-    stats.extra["exhaustive_grid_cells"] = len(cells) + 96 + 96
+    stats.extra["exhaustive_grid_cells"] = len(cells) + 192 + 192
     return out
 
 
